@@ -673,3 +673,21 @@ Proof.
        | rewrite nth_error_upd_other in G' by auto; eauto ]).
   - left. unfold step in H. dmatch H. injection H as <-. cbn [groups] in G'. eauto.
 Qed.
+
+(* ---- 7. what Many panics with does not matter ---- *)
+
+(* safeInvoke's recover turns every panic value into the same error: the step is the same for every kind *)
+Lemma panic_kind_irrelevant_lemma : forall s g k1 k2, step s (LRun g (OPanic k1)) = step s (LRun g (OPanic k2)).
+Proof. intros. reflexivity. Qed.
+
+(* and a panic of any kind is followed by done like any other outcome: the creator's next step closes doneCh *)
+Lemma panic_then_done_lemma : forall s g k s', step s (LRun g (OPanic k)) = Some s' ->
+  exists s2 g2, step s' (LDone g) = Some s2 /\ nth_error (groups s2) g = Some g2 /\ g_done g2 = true /\ g_err g2 = Some EPanic.
+Proof.
+  intros s g k s' H. unfold step in H. destruct (nth_error (groups s) g) as [gr|] eqn:G; [|discriminate].
+  destruct (g_phase gr) eqn:P; try discriminate. destruct (g_ctxc gr); [discriminate|]. injection H as <-.
+  unfold step. cbn [groups set_group]. rewrite (nth_error_upd_same _ _ _ _ _ G). cbn.
+  eexists. eexists. split; [reflexivity|]. cbn [groups set_group]. split.
+  - eapply nth_error_upd_same. eapply nth_error_upd_same. exact G.
+  - cbn. auto.
+Qed.
